@@ -100,7 +100,12 @@ class Ob:
                     prm = f.param(n)
                     if n in ("self", "cls") or prm is None or prm.default is None or not (isinstance(prm.default, _ast.Constant) and prm.default.value is None):
                         continue
-                    rebound = any(isinstance(x, _ast.Name) and x.id == n and isinstance(x.ctx, _ast.Store) for x in _ast.walk(f.node))
+                    rebound = any(
+                        isinstance(x, _ast.Assign)
+                        and any(isinstance(y, _ast.Name) and y.id == n for t_ in x.targets for y in _ast.walk(t_))
+                        and (any(isinstance(t_, (_ast.Tuple, _ast.List)) for t_ in x.targets) or not any(isinstance(y, _ast.Name) and y.id == n for y in _ast.walk(x.value)))
+                        for x in _ast.walk(f.node)
+                    )  # filled in from the OTHER arguments (`p = set(p)` is not that)
                     handed = any(isinstance(x, _ast.Call) and any(isinstance(a, _ast.Name) and a.id == n for a in x.args) for x in _ast.walk(f.node))
                     aliased = any(isinstance(x, _ast.Assign) and isinstance(x.value, _ast.Name) and x.value.id == n for x in _ast.walk(f.node))
                     if rebound or aliased:
